@@ -424,7 +424,7 @@ def work_slice(args):
                         bad.append((key.hex(), c08.key_class(key), str(a), str(b)))
                     else:
                         bad.append(None)
-        out.append(('murmur', {'keys': nkeys, 'bad': [x for x in bad if x], 'nbad': len(bad)}))
+        out.append(('murmur', {'keys': nkeys, 'bad': [x for x in bad if x], 'nbad': len(bad), 'last': [key.hex(), str(a), str(b)] if nkeys else None}))
     elif what == 'c39':
         from checks import c39
         part = c39.run_cases(c39.pvs_of(thorough), thorough, ['ProtocolHandler', 'LazyProtocolHandler'], (i, n), fp_prefix='C07/c39')
@@ -503,12 +503,23 @@ def type_label(key, thorough):
     return None, None
 
 
+def case_order(key):
+    """Enumeration order of a case key, so that the first reported example of a fingerprint does not depend on how the
+    cases were sliced over the worker processes (VERIF_NPROC)."""
+    out = []
+    for f in key.split('|'):
+        digits = ''.join(ch for ch in f if ch.isdigit())
+        out.append((f.rstrip('0123456789'), int(digits) if digits else -1))
+    return out
+
+
 def compare(ctx, part, pure_rows, comp_rows, thorough):
     comp = {}
     for key, d in comp_rows:
         comp[key] = d
     seen = set()
-    for key, d in pure_rows:
+    n_samples = {'c01': 0, 'c04': 0}
+    for key, d in sorted(pure_rows, key=lambda kd: case_order(kd[0])):
         seen.add(key)
         if key not in comp:
             raise HarnessError('compiled worker produced no result for case %s' % key)
@@ -542,8 +553,12 @@ def compare(ctx, part, pure_rows, comp_rows, thorough):
             part.mark_nontrivial(key)
         part.outcome((group, 'same' if not differing else 'differ', p[0] if p[0] == 'EXC' else 'rows'))
         if not differing:
-            if key.endswith('|all') and key.startswith('c01|'):
-                part.sample({'case': key, 'type': type_label(key, thorough)[1], 'dump_head': json.dumps(p)[:200]}, limit=2)
+            if key.endswith('|all') and key.startswith('c01|') and n_samples['c01'] < 2:
+                n_samples['c01'] += 1
+                part.sample({'case': key, 'type': type_label(key, thorough)[1], 'decoders': ['pure'] + variants, 'agreed_dump_head': json.dumps(p)[:200]}, limit=8)
+            elif group == 'c04' and n_samples['c04'] < 2 and p[0] == 'MSG' and len(rows_dump[1]) > 0:
+                n_samples['c04'] += 1
+                part.sample({'case': key, 'decoders': ['pure'] + variants, 'agreed_dump_head': json.dumps(p)[:200]}, limit=8)
             continue
         cy = [v for v in differing if v in ('ListParser', 'LazyParser')]
         if len(cy) == 2 and c['ListParser'] == c['LazyParser']:
@@ -575,6 +590,8 @@ def compare(ctx, part, pure_rows, comp_rows, thorough):
     nk = 0
     for key, d in comp_rows:
         if key == 'murmur':
+            if nk == 0 and d.get('last'):
+                part.sample({'case': 'murmur3', 'key': d['last'][0], 'pure _murmur3': d['last'][1], 'cmurmur3': d['last'][2]}, limit=8)
             nk += d['keys']
             part.count('evaluations', d['keys'])
             part.count('murmur3_keys', d['keys'])
@@ -588,6 +605,7 @@ def compare(ctx, part, pure_rows, comp_rows, thorough):
                 part.count('c39_' + k2, v2)
             part.count('evaluations', d['counters'].get('evaluations', 0))
             part.outcome(('c39', 'violations' if d['violations'] else 'ok'))
+            part.sample({'case': 'c39 scenarios through ListParser and LazyParser', 'counters': d['counters'], 'violations': len(d['violations'])}, limit=8)
             for fp, what, data in d['violations']:
                 part.violation(fp, 'compiled build, C39 scenario: ' + what, {'c39': data, 'thorough': thorough})
     if nk == 0:
